@@ -65,10 +65,11 @@ var (
 func vpSecUserInfo(ctx context.Context, token string) (jwt.Claims, error) {
 	vpUICalls++
 	vpUITok = token
+	c := jwt.Claims{Subject: vpStringN("sub", 2), Issuer: "rdpgw"}
 	if !vpBool("token-verifies") {
-		return jwt.Claims{}, errors.New("vp: token refused")
+		return c, errors.New("vp: token refused") // like the real function: claims so far, plus the error
 	}
-	return jwt.Claims{Subject: vpStringN("sub", 2), Issuer: "rdpgw"}, nil
+	return c, nil
 }
 
 var vpEncoded int
@@ -246,6 +247,9 @@ func VP_C15_tokeninfo() {
 		vpAssume(method != "GET")
 	}
 	vpQueryVals = url.Values{}
+	for _, ch := range []byte(vpStringN("sub", 2)) {
+		vpAssume(ch >= 0x80) // cannot coincide with fixed message text
+	}
 	tok := ""
 	switch vpIntRange("param", 0, 2) {
 	case 1:
@@ -267,6 +271,12 @@ func VP_C15_tokeninfo() {
 	case !vpBool("token-verifies"):
 		vpReach("refused")
 		vpAssert(w.status == 403 && vpEncoded == 0, "refused-token-is-403-and-discloses-nothing")
+		sub := vpStringN("sub", 2)
+		leak := false
+		for i := 0; i+2 <= len(w.body); i++ {
+			leak = vpOr(leak, string(w.body[i:i+2]) == sub)
+		}
+		vpAssert(!leak, "refusal-body-does-not-carry-the-subject")
 		vpAssert(vpUICalls == 1 && vpUITok == tok, "verifier-sees-the-presented-token")
 	default:
 		vpReach("ok")
